@@ -1,6 +1,7 @@
 SPECIFICATION Spec
 CHECK_DEADLOCK FALSE
 INVARIANT RefLaw
+INVARIANT RefLawSimple
 INVARIANT RefStable
 INVARIANT Refuses
 INVARIANT Emit
@@ -12,5 +13,6 @@ CONSTANTS
   RuleTypes = {1}
   LigLens = {2}
   Kinds = {"ttf"}
+  TextSel = "none"
   Flags = FALSE
   Quiet = TRUE
